@@ -40,6 +40,7 @@ type PtrV struct {
 	Path []int      // struct field indices from root
 
 	global *ssa.Global // set for pointers to package-level variables
+	lval   bool        // specification evaluator: the selection of a struct-typed field (denotes the struct value in comparisons)
 
 	// castElem != nil: the pointer was obtained by reinterpreting a *[]U as *[]castElem through
 	// unsafe.Pointer (storage.Header typed views). Loads rescale off/len/cap by the size ratio;
